@@ -430,3 +430,126 @@ def r17_8(ctx):
     ctx.check("keyword terminals end at a word boundary", not open_ended, "every keyword is a regex `word(?!\\w)` (or `word\\b`)",
               f"{len(open_ended)} plain string keywords, e.g. {open_ended[:6]}: an identifier that starts with one of them is split (`intermediate = 1` parses as `int ermediate = 1`, `elsewhere = 2` after an if as its else branch)",
               gm.where("IDENTIFIER"))
+
+
+def _matchers(gm):
+    """terminal name -> function(text) -> bool (full match), from the terminal patterns of the grammar file"""
+    out = {}
+    for name, t in gm.terminals.items():
+        if t["kind"] == "str":
+            out[name] = (lambda s, v=t["value"]: s == v)
+        else:
+            fl = 0
+            for f in t["flags"]:
+                fl |= {"i": re.I, "m": re.M, "s": re.S, "x": re.X, "u": re.U, "l": 0}.get(f, 0)
+            try:
+                rx_ = re.compile(t["value"], fl)
+            except re.error:
+                continue
+            out[name] = (lambda s, r=rx_: r.fullmatch(s) is not None)
+    return out
+
+
+# terminals whose priority over every terminal they share text with is wanted: the operand-spelling prefixes and the macro-like
+# keywords must not be read as (the beginning of) a plain identifier or register-alias name
+REVIEWED_PRIORITISED = {"MEM_LOAD", "MEM_STORE", "WRITE_PRED", "JUMP"}
+
+
+@rule("R17.9", "C17", "terminal priorities are summed over a derivation and compared BEFORE alternative order (Lark ForestSumVisitor): a terminal that shares text with another terminal carries the same priority, except for the reviewed keyword-over-identifier pairs", min_instances=4)
+def r17_9(ctx):
+    gm = get_grammar(ctx.env)
+    match = _matchers(gm)
+    prios = {n: t["priority"] for n, t in gm.terminals.items()}
+    # probe texts: every literal terminal, every keyword word, and those spellings extended on either side (a text another terminal
+    # tokenises as ONE token while the literal makes it two: `-` + `1.0` against a signed float)
+    lits = {n: gm.literal(n) for n in gm.terminals}
+    tails = ["", "x", "1", "1.0", "0x1", "_a", "V", "32"]
+    n_pairs = 0
+    for name, lit in sorted(lits.items()):
+        if lit is None:
+            continue
+        rivals = set()
+        for tail in tails:
+            for text in {lit + tail, tail + lit}:
+                for other, m in match.items():
+                    if other != name and m(text):
+                        rivals.add(other)
+        for other in sorted(rivals):
+            n_pairs += 1
+            if prios[name] == prios[other] == 0:
+                continue
+            if name in REVIEWED_PRIORITISED or other in REVIEWED_PRIORITISED:
+                hi, lo = (name, other) if name in REVIEWED_PRIORITISED else (other, name)
+                if lo in REVIEWED_PRIORITISED:
+                    continue
+                ctx.check(f"priority {hi} over {lo}", prios[hi] > prios[lo], f"{hi} > {lo}", f"{hi}={prios[hi]}, {lo}={prios[lo]}", gm.where(hi))
+            else:
+                ctx.check(f"priority of {name} ({lit!r}) and {other}, which can cover the same text", prios[name] == prios[other] == 0,
+                          "no priority on either: the competing readings are decided by alternative order, as reviewed (R17.3)",
+                          f"{name}={prios[name]}, {other}={prios[other]}: every derivation using the prioritised token now beats its rivals whatever the alternative order says "
+                          f"(`(int32_t) -x` turns into a subtraction from an identifier named int32_t when SUB_OP outranks UNARY_OP)", gm.where(name))
+    ctx.check("terminal pairs that share text", n_pairs >= 60, ">= 60 pairs inspected", str(n_pairs), gm.where("IDENTIFIER"), nontrivial=False)
+    ctx.need(len(REVIEWED_PRIORITISED & set(prios)) >= 3, "the prioritised operand-spelling terminals are missing")
+
+
+def _short_sequences(gm, limit=2):
+    """nonterminal -> set of terminal-name tuples of length <= limit it derives (least fixpoint)"""
+    seqs = {n: set() for n in gm.rules}
+    changed = True
+    while changed:
+        changed = False
+        for n, alts in gm.rules.items():
+            for a in alts:
+                cur = {()}
+                for sym, is_term, _ in a.symbols:
+                    opts = {(sym,)} if is_term else seqs.get(sym, set())
+                    cur = {x + y for x in cur for y in opts if len(x) + len(y) <= limit}
+                    if not cur:
+                        break
+                if not cur <= seqs[n]:
+                    seqs[n] |= cur
+                    changed = True
+    return seqs
+
+
+def _alt_sequences(gm, a, seqs, limit=2):
+    cur = {()}
+    for sym, is_term, _ in a.symbols:
+        opts = {(sym,)} if is_term else seqs.get(sym, set())
+        cur = {x + y for x in cur for y in opts if len(x) + len(y) <= limit}
+    return cur
+
+
+@rule("R17.10", "C17", "a statement that consists of one word (`cancel_slot;`, `break;`, `continue;`, `return;`) is read as that statement, not as an expression statement on an identifier of that name", min_instances=3)
+def r17_10(ctx):
+    gm = get_grammar(ctx.env)
+    match = _matchers(gm)
+    ctx.need("IDENTIFIER" in match and "stmt" in gm.rules, "IDENTIFIER / stmt missing")
+    seqs = _short_sequences(gm)
+    alts = gm.rules["stmt"]
+    per_alt = [(a, _alt_sequences(gm, a, seqs)) for a in alts]
+    words = {}
+    for a, ss in per_alt:
+        for s in ss:
+            if len(s) == 2:
+                w = gm.literal(s[0])
+                if w is not None and s[0] != "IDENTIFIER" and match["IDENTIFIER"](w) and gm.terminals[s[0]]["priority"] <= gm.terminals["IDENTIFIER"]["priority"]:
+                    words.setdefault((s[0], s[1], w), []).append(a)
+    ctx.need(words, "no one-word statements found in the grammar")
+
+    def rank(a):
+        # Lark's Earley: a stmt item completed by the SCANNER (the alternative itself ends with a terminal) enters the column before the
+        # completer runs, and of two equal families (same span, same symbols) only the first one added is kept (PackedNode.__eq__
+        # compares (left, right); SymbolNode.__eq__ compares (symbol, start, end)); among completer-made ones the alternative order decides
+        return (0 if a.symbols and a.symbols[-1][1] else 1, a.order)
+
+    for (t0, t1, w), kw_alts in sorted(words.items()):
+        rivals = [a for a, ss in per_alt if ("IDENTIFIER", t1) in ss and a not in kw_alts]
+        if not rivals:
+            ctx.check(f"`{w};`", True, "keyword statement", "no competing identifier reading", gm.where("stmt"))
+            continue
+        best_kw = min(kw_alts, key=rank)
+        best_rv = min(rivals, key=rank)
+        ctx.check(f"`{w};` is the {best_kw.text().split(': ', 1)[1]} statement", rank(best_kw) < rank(best_rv),
+                  "the keyword alternative precedes the identifier reading, or it ends with the terminal that ends the statement (scanner-completed)",
+                  f"keyword reading {best_kw.text()} rank {rank(best_kw)}; identifier reading {best_rv.text()} rank {rank(best_rv)}", gm.where("stmt"))
